@@ -555,6 +555,41 @@ def check_reader_not_behind_writer(eng, run):
     run.ob("C08.locks", f"{fn.short}:send-lock-on-read-paths-only-with-pending-output", not bad, acquisitions=len(an.sites))
 
 
+def check_write_failure_keeps_read_side(eng, run):
+    """the two directions fail separately: `_read_bio.write_eof()` (no more ciphertext will ever be fed to the SSL object) is a reaction
+    to a failure of the *read* side or of the SSL layer.  An OSError handler that marks the read BIO as ended guards a block that
+    reads from the wrapped transport; a handler around a flush alone (EPIPE on write) must leave the read BIO alone - the peer's
+    bytes that are still in flight have to be delivered."""
+    from sa.norm import nodes_inl
+    tls = eng.db.cls(TLS)
+    fn = tls.methods["_retry_ssl_method"]
+    n = 0
+    for t, owner in [(x, o) for x, o in nodes_inl(fn) if isinstance(x, ast.Try)]:
+        for h in t.handlers:
+            names = eng.lattice.handler_classes(owner, h.type) if h.type is not None else []
+            if not names or not all(nm.split(".")[-1] == "OSError" for nm in names):
+                continue
+            def _ends(c, o, depth=0):
+                if isinstance(c, ast.Call) and isinstance(c.func, ast.Attribute) and c.func.attr == "write_eof" and "read_bio" in (dotted(c.func.value) or ""):
+                    return True
+                if isinstance(c, ast.Call) and depth < 2:  # the pair of write_eof() calls factored into a private helper
+                    from sa.norm import private_helper
+                    g = private_helper(o, c)
+                    if g is not None and not isinstance(g.node, ast.Lambda):
+                        return any(_ends(x, g, depth + 1) for x in own_nodes(g.node))
+                return False
+            ends_read = [c for b in h.body for c in ast.walk(b) if _ends(c, owner)]
+            if not ends_read:
+                continue
+            n += 1
+            reads = any(isinstance(c, ast.Call) and isinstance(c.func, ast.Attribute) and c.func.attr in ("readinto", "recv", "recv_into") for b in t.body for c in ast.walk(b))
+            if not reads:
+                run.finding("C08.eofbio", owner, ends_read[0], "the read BIO is marked as ended in the OSError handler of a block that only writes to the wrapped transport: a failed flush (EPIPE / ECONNRESET on write) "
+                            "truncates the read direction although the peer's bytes are still in flight")
+            run.ob("C08.eofbio", f"{owner.short}:read-BIO-ended-only-where-the-read-side-can-fail@+{t.lineno - owner.lineno}", reads)
+    run.floor("C08.eofbio OSError handlers that end the read BIO", n, 1)
+
+
 def run(eng, run):
     from sa.anchors import verify as _verify_anchor_names
     _verify_anchor_names(eng, run)
@@ -567,6 +602,7 @@ def run(eng, run):
     run.attempt(check_remove_after_write, eng, run)
     run.attempt(check_underlying, eng, run)
     run.attempt(check_locks, eng, run)
+    run.attempt(check_write_failure_keeps_read_side, eng, run)
     run.attempt(check_reader_not_behind_writer, eng, run)
     from sa.analyses.sharing import check_private_buffers
     run.attempt(check_private_buffers, eng, run, "C08.recv", ("easynetwork.lowlevel.api_async.transports", "easynetwork.lowlevel.api_async.backend._asyncio.stream"), 2)
